@@ -439,7 +439,8 @@ def encode(case, obs):
                 clist([_file(f["name"], f["runs"], f["gz"]) for f in d["outs"]]),
                 clist([_nm(n) for n in (d["after"] or [])])))
         else:
-            w = writes[e["w"]]
+            # more passes than records (the worker saw a record in pieces): an unknown record
+            w = writes[e["w"]] if e["w"] < len(writes) else [998, 0, e.get("s") or case["now0"]]
             evs.append("XWrite (mkrec %s %s) %s" % (cnat(w[0]), cZ(w[1]), _nm(w[2])))
     final = clist([_file(f["name"], f["runs"], f["gz"]) for f in obs["final"]])
     return "mkcase %s %s %s %s %s %s %s %s" % (cfg, seeds, _nm(case["rot0"]), _nm(case["now0"]), clist(evs), final, setup, cbool(front_ok))
